@@ -498,6 +498,54 @@ pub fn c15(seed: u64, idx: u64, t: &mut Tally, workdir: &str) {
             json!(null),
         );
     }
+    // ... and the same through the stock runner, configured by the `Cucumber`-level builder methods after
+    // `with_cli()` (some of them rebuild the whole value): what the runner starts is what the filter accepts
+    if idx % 5 == 3 {
+        use cucumber::{event, runner};
+        use futures::FutureExt as _;
+        type BOpts = cli::Opts<cli::Empty, runner::basic::Cli, cli::Empty, cli::Empty>;
+        let mut o = BOpts::default();
+        o.re_filter = name_re.as_ref().map(|re| Regex::new(re).unwrap());
+        o.tags_filter = tag_ast.as_ref().map(to_op);
+        let coll = Collect::default();
+        let input: Vec<parser::Result<gherkin::Feature>> = feats.iter().cloned().map(Ok).collect();
+        let cuc = Cucumber::<TW, VecParser, (), runner::Basic<TW>, Collect, cli::Empty>::custom(VecParser(input), runner::Basic::default(), coll.clone()).with_cli(o);
+        let method = r.below(4);
+        match method {
+            0 => drop(block_on(cuc.which_scenario(|_, _, _| runner::basic::ScenarioType::Concurrent).filter_run((), closure))),
+            1 => drop(block_on(cuc.before(|_, _, _, _| async {}.boxed_local()).retries(1).filter_run((), closure))),
+            2 => drop(block_on(cuc.max_concurrent_scenarios(2).after(|_, _, _, _, _| async {}.boxed_local()).filter_run((), closure))),
+            _ => drop(block_on(cuc.retry_options(|_, _, _, _| None).max_concurrent_scenarios(3).filter_run((), closure))),
+        }
+        t.count("c15.runs_through_the_stock_runner_configured_after_with_cli", 1);
+        let mut started: Vec<String> = coll
+            .0
+            .borrow()
+            .iter()
+            .filter_map(|it| it.as_ref().ok())
+            .filter_map(|e| match &e.value {
+                event::Cucumber::Feature(f, event::Feature::Scenario(s, ev)) if matches!(ev.event, event::Scenario::Started) => Some(format!("{}//{}", f.name, s.name)),
+                event::Cucumber::Feature(f, event::Feature::Rule(rl, event::Rule::Scenario(s, ev))) if matches!(ev.event, event::Scenario::Started) => Some(format!("{}/{}/{}", f.name, rl.name, s.name)),
+                _ => None,
+            })
+            .collect();
+        let mut want: Vec<String> = exp
+            .iter()
+            .flat_map(|f| f.scenarios.iter().map(|s| format!("{}//{}", f.name, s.name)).chain(f.rules.iter().flat_map(|rl| rl.scenarios.iter().map(|s| format!("{}/{}/{}", f.name, rl.name, s.name)))).collect::<Vec<_>>())
+            .collect();
+        started.sort();
+        want.sort();
+        if started != want {
+            let which = if name_re.is_some() { "name" } else if tag_ast.is_some() { "tags" } else { "closure" };
+            t.violation(
+                "C15",
+                &format!("filter:{which}:stock-runner"),
+                format!("the stock runner (builder method {method} after with_cli) started {started:?}, the active filter ({which}; name={name_re:?} tags={:?}) accepts {want:?}", tag_ast.as_ref().map(render_ast)),
+                idx,
+                json!(null),
+            );
+        }
+    }
     if kept > 0 && dropped > 0 {
         t.nontrivial_case("C15");
         t.nontrivial("C15", fnv(&format!("{name_re:?}|{:?}|{via_argv}|{kept}|{dropped}|{}", tag_ast.as_ref().map(render_ast), feats.len())));
